@@ -1262,6 +1262,38 @@ func c12CheckReply(c *vt.Ctx, w *c12World, rpcName string, reply c12AnyReply) {
 			if wn.trunk && int(nc.GetENIInfo().GetVid()) != wn.vid {
 				c.Fatalf("%s: vlan id %d, the member ENI has %d", what, nc.GetENIInfo().GetVid(), wn.vid)
 			}
+			if wn.trunk {
+				// a trunk member is reached through the trunk ENI: the configuration must
+				// name that ENI's gateway for every family the pod has an address in — the
+				// reserved gateway (third from last) of the trunk ENI's own subnet of THAT
+				// family on the CRD path, the gateway instance metadata reports for the
+				// trunk ENI on the legacy path
+				te := &w.ENIs[w.Trunk]
+				eg := nc.GetENIInfo().GetGatewayIP()
+				for _, f := range []struct {
+					fam, podIP, got, cidr, metaGW string
+				}{
+					{"ipv4", ip.GetIPv4(), eg.GetIPv4(), te.CIDR4, te.GW4},
+					{"ipv6", ip.GetIPv6(), eg.GetIPv6(), te.CIDR6, te.GW6},
+				} {
+					if f.podIP == "" {
+						continue
+					}
+					g, ok := c12ParseAddr(f.got)
+					if !ok {
+						c.Fatalf("%s %s: pod address %s but no gateway of the trunk ENI for that family (ENIInfo gateway %v)", what, f.fam, f.podIP, eg)
+					}
+					var want netip.Addr
+					if w.Kind == c12KCRDPod {
+						want = c12AddrAt(c12Prefix(c, f.cidr), -3)
+					} else {
+						want, _ = c12ParseAddr(f.metaGW)
+					}
+					if g != want {
+						c.Fatalf("%s %s: trunk ENI gateway %s, the trunk ENI (subnet %s) has %s", what, f.fam, f.got, f.cidr, want)
+					}
+				}
+			}
 			var got []string
 			for _, r := range nc.GetExtraRoutes() {
 				got = append(got, r.GetDst())
